@@ -19,9 +19,10 @@ ToSet(s) == {s[i] : i \in 1..Len(s)}
 VARIABLES ready, lang, code, highlight, expr, pos, stack, markers, table, file, checkAll, repointVer, last, l
 
 \* the constants of Session, read off the trace
-TExprs == {Rec[i].st.expr : i \in 1..Len(Rec)} \ {"#none"}
-TNodesOf == [e \in TExprs |-> ToSet(Rec[CHOOSE i \in 1..Len(Rec) : Rec[i].st.expr = e].st.nodes)]
-TRootOf == [e \in TExprs |-> Rec[CHOOSE i \in 1..Len(Rec) : Rec[i].st.expr = e].st.root]
+Seen == {Rec[i].st.expr : i \in 1..Len(Rec)} \ {"#none"}
+TExprs == Seen \cup {"#never-set"}          \* (a walk may never get an expression accepted: the quantifiers still need a domain)
+TNodesOf == [e \in TExprs |-> IF e \in Seen THEN ToSet(Rec[CHOOSE i \in 1..Len(Rec) : Rec[i].st.expr = e].st.nodes) ELSE {"#n"}]
+TRootOf == [e \in TExprs |-> IF e \in Seen THEN Rec[CHOOSE i \in 1..Len(Rec) : Rec[i].st.expr = e].st.root ELSE "#n"]
 TLangs == UNION {DOMAIN Rec[i].st.file.speech : i \in 1..Len(Rec)}
 TCodes == UNION {DOMAIN Rec[i].st.file.braille : i \in 1..Len(Rec)}
 S == INSTANCE Session WITH Exprs <- TExprs, NodesOf <- TNodesOf, RootOf <- TRootOf, Langs <- TLangs, Codes <- TCodes,
